@@ -325,7 +325,7 @@ class Ctx:
         elif name == "finalize_wrapper":
             fp = node["final"]
             final = (lambda: self.run_body(fp)) if node.get("final_form") == "fn" else self.run_body(fp)
-            r = yield from bpp.finalize_wrapper(inner, final)
+            r = yield from bpp.finalize_wrapper(inner, final, **({"pause_for_debug": True} if node.get("pause_for_debug") else {}))
         else:
             fn = getattr(bpp, name)
             args = self.val(node.get("args", []))
